@@ -97,7 +97,7 @@ def run(ctx):
         for hd in ("wb", "ab", "a+b", "r+b", "unbuffered"):
             check_case(ctx, ld, {"entries": [[[1], [0, 2, 5]], [[300], [1, 4, X.U32]]], "common": 0, "arity": 1, "handle": hd}, reqs, pend)
         # row-id arrays that are non-contiguous views (a slice with a step, a matrix column, a reversed view)
-        for lay in ("stride2", "column", "backwards"):
+        for lay in ("stride2", "column", "backwards", "unpickled", "explicit_le", "derived_from_unpickled"):
             for arity in (1, 2):
                 check_case(ctx, ld, {"entries": [[[1] + [0] * (arity - 1), [0, 2, 5]], [[2] + [1] * (arity - 1), [1, 4, X.U32]]],
                                      "common": 0, "arity": arity, "layout": lay}, reqs, pend)
